@@ -27,7 +27,7 @@ def get_static_file(path, static_files):
     else:
         f = None
         while path != '':
-            path, last = path.rsplit('/', 1)
+            path, _, last = path.rpartition('/')
             extra_path = '/' + last + extra_path
             if path in static_files:
                 f = static_files[path]
